@@ -583,7 +583,7 @@ def replay_trace(prog: SeqProgram, lib, ref: RefProc, vm: VModel, trace, init):
             for n in names:
                 o = prog.objs[n]
                 if o.default is not None and not o.noreset and n in written:
-                    env[n] = o.default
+                    env[n] = ([o.default] * o.ty.n if _is_arr(o.ty) and not isinstance(o.default, list) else o.default)
             for n, val in prog.meta.get("on_reset", []):
                 env[n] = val
             pc = START
@@ -593,7 +593,7 @@ def replay_trace(prog: SeqProgram, lib, ref: RefProc, vm: VModel, trace, init):
             assert len(live) == 1, f"R not deterministic: {len(live)} live paths"
             pc, env = live[0].pc, live[0].env
         got = {n: vm.get(sim, n) for n in names}
-        want = {n: to_bits(PyP, env[n], prog.objs[n].ty) for n in names}
+        want = {n: obj_to_bits(PyP, env[n], prog.objs[n].ty) for n in names}
         asserts = [m for c, m, w, tm in sim.obligations if c is True]
         log.append({"clock": i, "inputs": step, "R_pc": pc, "R": want, "V": got, "V_state": sim.sig[vm.state_sig].x if vm.state_sig else None})
         if got != want or asserts:
